@@ -360,8 +360,10 @@ func (p *protocolV2) messagePump(client *clientV2, startedChan chan bool) {
 			}
 			verifPoint("proto.pump.afterRecv")
 			msg.Attempts++
-			subChannel.StartInFlightTimeout(msg, client.ID, msgTimeout)
+			// count first, register second: Channel.Empty subtracts what it finds
+			// registered, so the count never lags behind the in-flight map
 			client.SendingMessage()
+			subChannel.StartInFlightTimeout(msg, client.ID, msgTimeout)
 			err = p.SendMessage(client, msg)
 			if err != nil {
 				goto exit
